@@ -51,6 +51,10 @@ class LtlPastifier(LtlAstVisitor):
             horizon = horizons[spec]
             pastified_spec = self.visit(spec, horizon)
             pastified_specs.append(pastified_spec)
+            # a named sub-specification is from now on its pastified form
+            for key in ast.var_subspec_dict:
+                if ast.var_subspec_dict[key] is spec:
+                    ast.var_subspec_dict[key] = pastified_spec
         ast.phi_name_to_node_dict = self.ast.phi_name_to_node_dict
         ast.specs = pastified_specs
         return ast
